@@ -154,7 +154,7 @@ theorem vinv_rarrive {cfg : Cfg} {ws : WLog} {x : Reader} (hr : RInv cfg ws x) (
   have hok : FrameOK cfg x f := hr.frames_ok f (List.mem_append_left _ hf)
   have hkf : keyOf f = (f.media, f.pkt.pt) := rfl
   unfold rarrive
-  rw [demux_ok cfg x f hok]
+  rw [demux_ok cfg x hr.chan_ok f hok]
   simp only
   -- ids released so far are positions of the old history
   have hold : ∀ key, ∀ o ∈ (Recv.run R0 (keyArr key 0 x.arrived)).2, ∀ q ∈ o.pkts, q.id < x.arrived.length := by
@@ -255,7 +255,7 @@ theorem vinv_ctl {cfg : Cfg} {ws : WLog} {x : Reader} (hr : RInv cfg ws x) (hu :
     split
     · exact h
     · exact vinv_frame h rfl rfl rfl
-  | setup m => simp only [rctl]; split <;> first | exact h | exact vinv_frame h rfl rfl rfl
+  | setup m req => simp only [rctl]; split <;> first | exact h | exact vinv_frame h rfl rfl rfl
   | play => simp only [rctl]; split <;> first | exact h | exact vinv_frame h rfl rfl rfl
   | pclose => simp only [rctl]; split <;> first | exact h | exact vinv_frame h rfl rfl rfl
   | pnil => simp only [rctl]; split <;> first | exact h | exact vinv_frame h rfl rfl rfl
